@@ -863,6 +863,10 @@ impl<S: USet> Eng<S> {
         if !S::TYPED && d != want {
             self.fail("C08", format!("Debug output {:?} differs from the member list {:?}", d, want));
         }
+        if !S::TYPED && d.len() < 4000 && !d.contains('\n') {
+            // the text itself goes to the model (`debugStr`): type name, then the list in iteration order
+            self.emit(&format!("dbg {} {}", i, d));
+        }
         self.bump("op:debug");
     }
     pub fn op_binop(&mut self, k: usize, i: usize, j: usize, union: bool, own: bool) {
